@@ -213,6 +213,36 @@ fn gen_near_limit(rng: &mut Rng) -> Sc {
     sc
 }
 
+/// One directory with 65535-66000 files, the action reached for every one of them: the
+/// 65536th run is a run like any other.
+fn gen_many_files(rng: &mut Rng) -> Sc {
+    let mut spec = crate::tree::TreeSpec::default();
+    spec.nodes.push(crate::tree::Node::Dir { path: "t".into() });
+    spec.bulk.push(crate::tree::Bulk { dir: "t".into(), count: *rng.pick(&[65_535usize, 65_536, 65_537, 66_000]), kind: crate::tree::BulkKind::File });
+    let mut find = FindScenario::new(spec, vec![]);
+    if rng.chance(1, 2) {
+        // a few failing children somewhere along the way
+        find.outcomes = (0..rng.urange(1, 70_000)).map(|_| Outcome::Exit(0)).collect();
+        find.outcomes.push(Outcome::Exit(1));
+    }
+    let mut sc = Sc {
+        find,
+        starts: vec!["t".into()],
+        sorted: rng.chance(1, 2),
+        depth: false,
+        tests: vec!["-type".into(), "f".into()],
+        execdir: rng.chance(1, 3),
+        templates: vec![rng.pick(&["{}", "x{}"]).to_string()],
+        after: vec![],
+        mindepth1: false,
+        follow: None,
+        second: None,
+        near_limit: None,
+    };
+    sc.render();
+    sc
+}
+
 /// The scenario with its command line filled up (see `Sc::near_limit`).
 fn fill_to_limit(sc: &Sc, slack: usize) -> Sc {
     let arg_max = crate::sys::arg_max() as usize;
@@ -264,6 +294,9 @@ impl Property for C09 {
     fn generate(rng: &mut Rng, _tier: Tier) -> Sc {
         if rng.chance(1, 150) {
             return gen_near_limit(rng);
+        }
+        if rng.chance(1, 3000) {
+            return gen_many_files(rng);
         }
         let mutate = rng.chance(1, 4);
         let cfg = TreeCfg {
@@ -484,6 +517,10 @@ impl Property for C09 {
         }
         if sc.find.tree.raw_byte.is_some() && sc.find.tree.nodes.iter().any(|n| n.path().contains(tree::RAW_SENTINEL)) {
             rep.probe("file_name_not_valid_utf8");
+        }
+        if sc.find.tree.bulk.iter().any(|b| b.count >= 65_535) {
+            rep.probe("action_reached_for_more_than_65535_files");
+            rep.want_sample = false;
         }
         if sc.templates.iter().any(|t| t.matches("{}").count() > 1) {
             rep.probe("several_placeholders_in_one_argument");
